@@ -134,15 +134,19 @@ func exec(i in) vh.Out {
 		r, err := channel.Resolve(i.Cur, i.New)
 		var res *string
 		var rp *channel.Channel
+		var res2 *string
 		if err == nil {
 			res = &r
 			rp = pv(r, "-")
+			if r2, err2 := channel.Resolve(i.Cur, r); err2 == nil {
+				res2 = &r2
+			}
 		}
 		cc := pv(i.Cur, "-")
 		nc := pv(i.New, "-")
-		obs := map[string]interface{}{"result": res, "cur": cc, "new": nc, "result_parsed": rp}
+		obs := map[string]interface{}{"result": res, "cur": cc, "new": nc, "result_parsed": rp, "result2": res2}
 		coq := "(CResolve " + vh.CoqBytes(i.Cur) + " " + vh.CoqBytes(i.New) + " " + coqOptStr(res) + " " + coqOptChan(cc) + " " +
-			coqOptChan(nc) + " " + coqOptChan(rp) + ")"
+			coqOptChan(nc) + " " + coqOptChan(rp) + " " + coqOptStr(res2) + ")"
 		tags := []string{"resolve-error"}
 		nt := false
 		if err == nil {
@@ -174,7 +178,21 @@ func exec(i in) vh.Out {
 			obs["error"] = "invalid"
 		}
 		obs["result_parsed"] = rp
-		coq := "(CPinned " + vh.CoqBytes(i.Track) + " " + vh.CoqBytes(i.New) + " " + coqRes + " " + coqOptChan(rp) + ")"
+		coqRes2 := "PInvalid"
+		if err == nil {
+			r2, err2 := channel.ResolvePinned(i.Track, r)
+			switch {
+			case err2 == nil:
+				coqRes2 = "(POk " + vh.CoqBytes(r2) + ")"
+				obs["result2"] = r2
+			case errors.Is(err2, channel.ErrPinnedTrackSwitch):
+				coqRes2 = "PSwitch"
+				obs["error2"] = "switch"
+			default:
+				obs["error2"] = "invalid"
+			}
+		}
+		coq := "(CPinned " + vh.CoqBytes(i.Track) + " " + vh.CoqBytes(i.New) + " " + coqRes + " " + coqOptChan(rp) + " " + coqRes2 + ")"
 		return vh.Out{Observed: obs, Coq: coq, NonTrivial: i.Track != "" && tag != "pinned-invalid-track", Tags: []string{tag}}
 	}
 	panic("unknown kind " + i.Kind)
